@@ -32,8 +32,8 @@ type opReq struct {
 	FailMode string   `json:"fail_mode,omitempty"`
 	LockFail bool     `json:"lock_fail,omitempty"`
 	NoLock   bool     `json:"no_lock,omitempty"` // low level op inside an explicit rlock ... runlock bracket
-	Args     []string `json:"args,omitempty"`   // op "exec": run this command (another process acting on the file)
-	Off      int64    `json:"off,omitempty"`    // op "patch": write Hex at this file offset
+	Args     []string `json:"args,omitempty"`    // op "exec": run this command (another process acting on the file)
+	Off      int64    `json:"off,omitempty"`     // op "patch": write Hex at this file offset
 	Hex      string   `json:"hex,omitempty"`
 	Digest   bool     `json:"digest,omitempty"` // report sha1 of each row instead of the values
 	NoRows   bool     `json:"no_rows,omitempty"`
